@@ -360,12 +360,16 @@ Proof.
   eapply silent_trans; eassumption.
 Qed.
 
-Lemma dispatch_all_silent l : forall s, heap_ids s -> silent s (fst (dispatch_all s l)).
+(* a task whose dispatch fails is unallocated (Session.undoAllocation): a deallocate step *)
+Lemma dispatch_all_reach l : forall s, heap_ids s -> reach s (fst (dispatch_all s l)).
 Proof.
-  induction l as [|t l IH]; intros s Hi; simpl; [apply silent_refl|].
+  induction l as [|t l IH]; intros s Hi; simpl; [apply rtc_refl|].
   pose proof (dispatch_silent s t Hi) as H1. destruct (dispatch s t) as [s1 ok]. simpl in H1.
-  destruct ok; [|exact H1]. eapply silent_trans; [exact H1|]. apply IH.
-  apply (se_ids _ _ (sil_se _ _ H1)), Hi.
+  assert (Hi1 : heap_ids s1) by (apply (se_ids _ _ (sil_se _ _ H1)), Hi).
+  eapply reach_trans; [apply reach_silent, H1|].
+  destruct ok; [apply IH, Hi1|]. simpl.
+  destruct (heap s1 !! t) as [p|] eqn:Ep; [|apply rtc_refl].
+  apply unallocate_with_reach. eapply hp_lookup; eauto.
 Qed.
 
 Lemma ssn_place_with_reach jr s k tid nid :
@@ -412,9 +416,9 @@ Proof.
   destruct k; try exact H04.
   destruct (jobs s4 !! t_job p) as [j|]; [|exact H04].
   destruct (jr s4 j); [|exact H04].
-  pose proof (dispatch_all_silent (elements (default ∅ (j_index j !! skey Allocated))) s4 (reach_ids _ _ H04 Hi)) as Hd.
+  pose proof (dispatch_all_reach (elements (default ∅ (j_index j !! skey Allocated))) s4 (reach_ids _ _ H04 Hi)) as Hd.
   destruct (dispatch_all s4 _) as [s5 ok]. simpl in *.
-  eapply reach_trans; [exact H04|apply reach_silent, Hd].
+  eapply reach_trans; [exact H04|exact Hd].
 Qed.
 
 (* ---------- the skeleton ---------- *)
